@@ -100,9 +100,9 @@ _log_format_variables = {
     'asctime': 'atime',
     'msecs': 1.1,
     'relativeCreated': 1.1,
-    'thread': 1,
+    'thread': 140000000000000,
     'message': 'amessage',
-    'process': 1,
+    'process': 4000000,
     'funcName': 'fname',
 }
 
